@@ -18,6 +18,15 @@ def monitor(meta, out, designated=None):
         seen = [vlib.unhexs(l.split()[1]) for l in lines if l.startswith("stat ") and len(l.split()) > 1]
         if any(x != designated for x in seen):
             return "the identity to switch to was taken from '%s', the designated path is '%s'" % ([x for x in seen if x != designated][0], designated)
+    # the designated path is the default `.` (or another relative name): it names what it named when the daemon was
+    # started - a change of the working directory before it is examined makes another directory's owner the identity
+    for i, l in enumerate(lines):
+        if l.startswith("chdir ") and vlib.unhexs(l.split()[1]) != "/cwd":
+            later = [vlib.unhexs(x.split()[1]) for x in lines[i + 1:] if x.startswith("stat ") and len(x.split()) > 1]
+            rel = [x for x in later if not x.startswith("/")]
+            if rel:
+                return ("the working directory was changed to '%s' before the designated path '%s' was examined: the identity is taken from the owner of another directory"
+                        % (vlib.unhexs(l.split()[1]), rel[0]))
     if not lines or not lines[-1].startswith(("exit", "end")):
         return "main did not finish: %s" % lines[-2:]
     asroot = [l for l in lines if l.startswith("asroot ")]
@@ -88,6 +97,16 @@ def main(rep):
             cases.append((cid, mc.main_case(args=args, real=real, stat=st, slots=[mc.slot(exe=1)]), (st, (0, 0, 3, "ok", "ok", "ok"))))
             designated[cid] = "/own" if "-d" in args else "."
             n += 1
+    # watched directories below, above and beside the working directory (`/cwd` in the scripted world), already mounted
+    # or not, with the designated path left at its default `.`: the identity is that of the working directory's owner
+    real2 = {"/cwd/sub": "/cwd/sub", "/cwd": "/cwd", "/cwdx": "/cwdx", "/c": "/c", ".": "/cwd", "/": "/", "sub": "/cwd/sub"}
+    for args in (["-w", "/cwd/sub"], ["-e", "/cwd/sub"], ["-w", "/cwd"], ["-w", "/cwdx"], ["-w", "/c"], ["-w", "sub"], ["-w", "/cwd/sub", "-e", "/cwd"]):
+        for mounted in (("/",), ("/", "/cwd/sub", "/cwd")):
+            for st in (("ok", 1000, 100), ("ok", 0, 0)):
+                cid = "p%d" % n
+                cases.append((cid, mc.main_case(args=args, real=real2, mounted=mounted, stat=st, slots=[mc.slot(exe=1)]), (st, (0, 0, 3, "ok", "ok", "ok"))))
+                designated[cid] = "."
+                n += 1
     if exe_impl:
         impl, model, problems = vlib.correspond(exe_impl, exe_model, "main", [(c, s) for c, s, _ in cases], sandbox=True)
         validated = 0
@@ -139,10 +158,10 @@ def main(rep):
     rep.cov["evaluations"] = len(cases)
     rep.cov["distinct_nontrivial"] = len(cases)
     rep.cov["exhaustive"] = True
-    rep.cov["input_distribution"] = {"stat x switches x initial credentials": len(cases) - 6 - nmissing - len(designated), "failing start-up calls": 6, "missing watch roots": nmissing, "explicit designated path": len(designated)}
+    rep.cov["input_distribution"] = {"stat x switches x initial credentials": len(cases) - 6 - nmissing - len(designated), "failing start-up calls": 6, "missing watch roots": nmissing, "explicit / default designated path, roots around the working directory": len(designated)}
     rep.cov["rule"] = ("exhaustive: stat outcome {fails, owner 0:0, 0:5, 5:0, 1000:100} x {ok, fail, succeeds-without-effect}^3 for setgroups/setgid/setuid x "
                        "initial credentials {0:0 with groups, 0:0 without, 1000:100, 0:100, 1000:0} on the real main() with every call scripted, two event slots behind; "
-                       "plus failures of fanotify_init, the mount table, mount, fanotify_mark, load_handler, watch roots that do not exist, the designated path given with -d in every combination with the other options (the path examined must be that one), and every allocation of main() failing in turn in seven start-ups whose drop must fail closed (implementation only); the monitor checks the order, the credentials at load, and that no interposed call that "
+                       "plus failures of fanotify_init, the mount table, mount, fanotify_mark, load_handler, watch roots that do not exist, the designated path given with -d in every combination with the other options (the path examined must be that one), watched directories below / above / beside the working directory with the default designated path (no change of the working directory before it is examined), and every allocation of main() failing in turn in seven start-ups whose drop must fail closed (implementation only); the monitor checks the order, the credentials at load, and that no interposed call that "
                        "modifies the file system (mkdir, open with O_CREAT, link, rename, unlink, ...) is attempted while the user id or the group id is zero")
     rep.cov["samples"] = [cases[7][1].split("\n")]
     vlib.conclude_proofs(rep, found)
